@@ -210,6 +210,7 @@ func scenariosC14() []scen {
 				// bursts that overflow the (small) queues: the drop paths return buffers, too
 				scen{name: "5slow-burst", batch: b, nosib: true, ext3: [][]string{{"badmac"}, {"badmac"}, {"badmac"}, {"badmac"}, {"badmac"}}, early: early},
 				scen{name: "5fwd-burst", batch: b, nosib: true, ext3: [][]string{{"fwd"}, {"fwd"}, {"fwd"}, {"fwd"}, {"fwd"}}, bfd: 1, early: early},
+				scen{name: "bfd-burst", batch: b, nosib: true, ext3: [][]string{{"fwd"}}, bfd: 3, early: early},
 				scen{name: "4garbage+host-burst", batch: b, nosib: true, ext3: [][]string{{"garbage"}, {"garbage"}, {"badmac"}, {"fwd"}}, internal: [][]string{{"stun"}, {"host"}, {"stun"}}, early: early},
 			)
 		}
